@@ -5,7 +5,7 @@ from vf.props import _lock as L
 ID = 'C01'
 LEVEL = 'exploration'
 SHARD_TIMEOUT = L.SHARD_TIMEOUT
-FAMILY = ('dp', 'adr', 'movt')
+FAMILY = ('dp', 'adr', 'movt', 'subs_pc_lr')        # incl. the <op>S PC, Rn, <operand2> forms (exception return)
 RULE = ('case = (word generated from one reference-table row of a data-processing encoding: register fields from '
         '{0,1,2,3,7,8,12,13,14,15}+random, immediates/shift amounts from corners+random, random cond, S bit), random '
         'valid state (corner-heavy 32-bit operands, all modes, NZCVQ/GE random, inside/outside/last in IT for Thumb), '
